@@ -586,7 +586,7 @@ def sig_of(kind, mv, labels):
 def run(ctx):
     ctx.level = 'exploration'
     thorough = not ctx.quick
-    budget = ctx.budget or (200 if ctx.quick else 2400)
+    budget = ctx.budget or (360 if ctx.quick else 2400)
     k = 2 if thorough else 1
 
     named = list(state_cases(k, True, thorough))
